@@ -17,14 +17,39 @@ import (
 	"github.com/cometbft/cometbft/version"
 	"github.com/cosmos/cosmos-sdk/crypto/keys/ed25519"
 	sdk "github.com/cosmos/cosmos-sdk/types"
+	authtypes "github.com/cosmos/cosmos-sdk/x/auth/types"
+	banktypes "github.com/cosmos/cosmos-sdk/x/bank/types"
 	paramstypes "github.com/cosmos/cosmos-sdk/x/params/types"
 	stakingtypes "github.com/cosmos/cosmos-sdk/x/staking/types"
+
+	"github.com/Canto-Network/Canto/v8/app"
 )
 
 // NewEvmWorld: NewWorld plus what the EVM needs to run keeper-level calls: a validator behind the block's proposer
 // address (coinbase lookup), a full block header and the EVM chain id.
 func NewEvmWorld(nUsers int, fund sdk.Coins, t time.Time, seedByte byte) *World {
-	w := NewWorld(nUsers, fund, t)
+	return evmWorld(NewWorld(nUsers, fund, t), t, seedByte)
+}
+
+// NewEvmWorldAddrs: the same with the given user addresses (accounts whose keys the suite holds).
+func NewEvmWorldAddrs(addrs []sdk.AccAddress, fund sdk.Coins, t time.Time, seedByte byte) *World {
+	w := &World{alias: map[string]string{}}
+	accs := []authtypes.GenesisAccount{}
+	bals := []banktypes.Balance{}
+	for i, a := range addrs {
+		w.Users = append(w.Users, a)
+		w.alias[string(a)] = fmt.Sprintf("u%d", i)
+		accs = append(accs, &authtypes.BaseAccount{Address: a.String()})
+		bals = append(bals, banktypes.Balance{Address: a.String(), Coins: fund})
+	}
+	w.App = app.SetupWithGenesisAccounts(accs, bals...)
+	for _, name := range ModuleNames() {
+		w.alias[string(authtypes.NewModuleAddress(name))] = "m." + name
+	}
+	return evmWorld(w, t, seedByte)
+}
+
+func evmWorld(w *World, t time.Time, seedByte byte) *World {
 	// deterministic consensus key
 	seed := make([]byte, 32)
 	for i := range seed {
